@@ -163,7 +163,8 @@ HARNESS = {"c19.bloom": bloom, "c19.expanding": expanding, "c19.cms": cms, "c19.
 
 def jobs(tier):
     js = []
-    o = {"index_concretize_limit": 8, "witnesses": 1}
+    o = {"witnesses": 1}
+    oc = {"index_concretize_limit": 8, "witnesses": 1}
     for est, fpr in [(1, .5), (3, .2), (5, .3)] + ([(10, .05)] if tier == "thorough" else []):
         js.append({"h": "c19.bloom", "cfg": {"kind": "bloom", "est": est, "fpr": fpr, "str": est == 1}, "opts": dict(o, cost=est)})
     for est, fpr in [(1, .5), (1, .3)] + ([(2, .3)] if tier == "thorough" else []):
@@ -178,7 +179,7 @@ def jobs(tier):
         for cap, bsz in [(2, 1), (2, 2)]:
             for occ in itertools.product(range(bsz + 1), repeat=cap):
                 js.append({"h": "c19.cuckoo", "cfg": {"cap": cap, "bsz": bsz, "swaps": 2, "auto": True, "occ": list(occ), "counting": counting},
-                           "opts": dict(o, cost=cap * bsz)})
+                           "opts": dict(oc, cost=cap * bsz)})
     for n in (0, 1, 2, 3):
         for qs in itertools.product(range(8), repeat=n):
             if n == 3 and not (qs[0] <= qs[1] <= qs[2]):
